@@ -3,7 +3,7 @@
 //! After every mutating call a full dump through the public API follows (see `dump`).
 use crate::common::*;
 use crate::rng::Rng;
-use petgraph::data::{Build, Create, DataMap, DataMapMut};
+use petgraph::data::{Build, Create, DataMap, DataMapMut, Element, FromElements};
 use petgraph::graph::{Graph, GraphError};
 use petgraph::stable_graph::{EdgeIndex, IndexType, NodeIndex, StableGraph};
 use petgraph::visit::{
@@ -65,7 +65,14 @@ struct Run<'a, Ty: EdgeType, Ix: IndexType> {
     quiet: bool,
 }
 
-impl<'a, Ty: EdgeType, Ix: IndexType> Run<'a, Ty, Ix> {
+/// `StableGraph::new()` exists for `Directed`/`u32` only: `Some` exactly for that instantiation
+fn try_new<Ty: EdgeType + 'static, Ix: IndexType>() -> Option<G<Ty, Ix>> {
+    let g: StableGraph<i64, i64> = StableGraph::new();
+    let b: Box<dyn std::any::Any> = Box::new(g);
+    b.downcast::<G<Ty, Ix>>().ok().map(|b| *b)
+}
+
+impl<'a, Ty: EdgeType + 'static, Ix: IndexType> Run<'a, Ty, Ix> {
     fn w(&mut self) -> i64 {
         self.next_w += 1;
         self.next_w
@@ -723,8 +730,70 @@ impl<'a, Ty: EdgeType, Ix: IndexType> Run<'a, Ty, Ix> {
         self.dump();
     }
 
+    /// `FromElements::from_elements`: nodes get the index of their appearance; an edge naming a node that has not been
+    /// created (≈ 8 % of the element lists) or exhausting the index type (u8, rarely) is the documented panic
+    fn op_from_elements(&mut self) {
+        let maxix = self.maxix;
+        let big = maxix == 255 && self.rng.chance(5);
+        let n_el = if big { 250 + self.rng.below(12) } else { self.rng.below(14) };
+        let bad = self.rng.chance(8);
+        let bad_at = self.rng.below(n_el.max(1));
+        let mut els: Vec<Element<i64, i64>> = vec![];
+        let mut toks: Vec<String> = vec![];
+        let mut nodes = 0usize;
+        for k in 0..n_el {
+            if nodes == 0 || self.rng.chance(if big { 97 } else { 45 }) {
+                let w = self.w();
+                els.push(Element::Node { weight: w });
+                toks.push(format!("n:{}", w));
+                nodes += 1;
+            } else {
+                let pick = |r: &mut Rng| -> usize {
+                    if bad && k >= bad_at && r.chance(50) {
+                        (nodes + r.below(3)).min(maxix)
+                    } else {
+                        r.below(nodes)
+                    }
+                };
+                let a = pick(&mut self.rng);
+                let b = if self.rng.chance(15) { a } else { pick(&mut self.rng) };
+                let w = self.w();
+                els.push(Element::Edge { source: a, target: b, weight: w });
+                toks.push(format!("e:{}:{}:{}", a, b, w));
+            }
+        }
+        let req = format!("from_elements {}", list(toks.iter()));
+        match catch(|| <G<Ty, Ix> as FromElements>::from_elements(els)) {
+            Some(h) => {
+                self.g = h;
+                self.ctx.line(&req, "ok");
+            }
+            None => {
+                // the graph under construction is lost with the panic; continue on an empty one
+                self.g = StableGraph::default();
+                self.ctx.line(&req, "panic");
+            }
+        }
+        self.dump();
+    }
+
     fn op_new(&mut self) {
-        match self.rng.below(6) {
+        match self.rng.below(9) {
+            6 | 7 => self.op_from_elements(),
+            8 => {
+                // `StableGraph::new()` where it exists (Directed, u32), `default()` elsewhere
+                match try_new::<Ty, Ix>() {
+                    Some(g) => {
+                        self.g = g;
+                        self.ctx.line("new new", "ok");
+                    }
+                    None => {
+                        self.g = Default::default();
+                        self.ctx.line("new default", "ok");
+                    }
+                }
+                self.dump();
+            }
             0 => {
                 self.g = StableGraph::with_capacity(self.rng.below(9), self.rng.below(9));
                 self.ctx.line("new with_capacity", "ok");
@@ -838,13 +907,13 @@ impl<'a, Ty: EdgeType, Ix: IndexType> Run<'a, Ty, Ix> {
 }
 
 //                        0   1   2   3  4  5  6  7  8  9 10 11 12 13 14 15 16 17 18 19 20 21 22 23 24 25 26
-const W_BUILD: [u32; 27] = [18, 8, 20, 8, 5, 3, 3, 3, 2, 2, 1, 1, 1, 1, 1, 1, 0, 0, 1, 0, 0, 1, 1, 2, 0, 3, 0];
-const W_CHURN: [u32; 27] = [6, 3, 8, 3, 3, 2, 14, 14, 2, 2, 1, 1, 2, 1, 1, 3, 1, 2, 2, 4, 4, 2, 4, 4, 2, 6, 1];
-const W_MIXED: [u32; 27] = [10, 4, 12, 5, 4, 2, 7, 7, 2, 2, 1, 1, 2, 1, 1, 3, 1, 2, 2, 3, 3, 2, 3, 4, 2, 5, 1];
+const W_BUILD: [u32; 27] = [18, 8, 20, 8, 5, 3, 3, 3, 2, 2, 1, 1, 1, 1, 1, 1, 0, 0, 1, 0, 0, 1, 1, 2, 0, 3, 1];
+const W_CHURN: [u32; 27] = [6, 3, 8, 3, 3, 2, 14, 14, 2, 2, 1, 1, 2, 1, 1, 3, 1, 2, 2, 4, 4, 2, 4, 4, 2, 6, 2];
+const W_MIXED: [u32; 27] = [10, 4, 12, 5, 4, 2, 7, 7, 2, 2, 1, 1, 2, 1, 1, 3, 1, 2, 2, 3, 3, 2, 3, 4, 2, 5, 2];
 /// after vacancies exist: the calls whose interplay with the free lists is the point of C02
 const W_VACANT: [u32; 27] = [8, 3, 8, 3, 2, 1, 3, 3, 0, 0, 0, 0, 0, 0, 0, 10, 0, 8, 2, 8, 8, 3, 8, 10, 4, 10, 0];
 
-fn run_case<Ty: EdgeType, Ix: IndexType>(ctx: &mut Ctx, rng: Rng, case: u64, w: u32) {
+fn run_case<Ty: EdgeType + 'static, Ix: IndexType>(ctx: &mut Ctx, rng: Rng, case: u64, w: u32) {
     let thorough = ctx.tier_thorough;
     ctx.raw(&format!(
         "case {} dir={} w={} debug={}",
@@ -862,7 +931,7 @@ fn run_case<Ty: EdgeType, Ix: IndexType>(ctx: &mut Ctx, rng: Rng, case: u64, w: 
         quiet: false,
     };
     // constructor
-    if r.rng.chance(75) {
+    if r.rng.chance(60) {
         r.g = StableGraph::with_capacity(0, 0);
         r.ctx.line("new with_capacity", "ok");
         r.dump();
